@@ -343,8 +343,14 @@ func (r *Resolver) onSetOrList(g *Scope, name string, t *parser.Type, v *parser.
 	switch v.Type {
 	case parser.ConstType_ConstList:
 		elemName := "element of " + name
+		// t may be a reference to a typedef of a container, which carries no
+		// element type itself: take it from the dereferenced type
+		eg, et, err := r.elemScopeAndType(g, t, false, v)
+		if err != nil {
+			return "", err
+		}
 		for _, elem := range v.TypedValue.GetList() {
-			str, err := r.resolveConst(g, elemName, t.ValueType, elem)
+			str, err := r.resolveConst(eg, elemName, et, elem)
 			if err != nil {
 				return "", err
 			}
@@ -374,14 +380,22 @@ func (r *Resolver) onMap(g *Scope, name string, t *parser.Type, v *parser.ConstV
 	var kvs []string
 	switch v.Type {
 	case parser.ConstType_ConstMap:
+		kg, kt, err := r.elemScopeAndType(g, t, true, v)
+		if err != nil {
+			return "", err
+		}
+		vg, vt, err := r.elemScopeAndType(g, t, false, v)
+		if err != nil {
+			return "", err
+		}
 		for _, mcv := range v.TypedValue.Map {
 			keyName := "key of " + name
-			key, err := r.resolveConst(g, keyName, r.bin2str(t.KeyType), mcv.Key)
+			key, err := r.resolveConst(kg, keyName, r.bin2str(kt), mcv.Key)
 			if err != nil {
 				return "", err
 			}
 			valName := "value of " + name
-			val, err := r.resolveConst(g, valName, t.ValueType, mcv.Value)
+			val, err := r.resolveConst(vg, valName, vt, mcv.Value)
 			if err != nil {
 				return "", err
 			}
@@ -400,6 +414,64 @@ func (r *Resolver) onMap(g *Scope, name string, t *parser.Type, v *parser.ConstV
 	}
 	// fault tolerance
 	return goType + "{}", nil
+}
+
+// elemScopeAndType returns the key (or element) type of the container type t
+// together with the scope that type belongs to.  For a container written in
+// place that is t's own sub-type in g; for a reference to a typedef of a
+// container it is the sub-type of the typedef's target, in the file that
+// defines the typedef.
+func (r *Resolver) elemScopeAndType(g *Scope, t *parser.Type, key bool, v *parser.ConstValue) (*Scope, *parser.Type, error) {
+	if !t.IsSetReference() && !t.GetIsTypedef() {
+		if key {
+			return g, t.KeyType, nil
+		}
+		return g, t.ValueType, nil
+	}
+	ast, x, err := semantic.Deref(g.ast, t)
+	if err != nil {
+		return nil, nil, err
+	}
+	eg := g
+	if ast != g.ast {
+		if eg = r.util.scopeCache[ast]; eg == nil {
+			return nil, nil, fmt.Errorf("%q not build", ast.Filename)
+		}
+	}
+	et := x.ValueType
+	if key {
+		et = x.KeyType
+	}
+	if et == nil {
+		return nil, nil, fmt.Errorf("expect %q a typedef of a container in %q", t.Name, g.ast.Filename)
+	}
+	if eg != g && constHasIdentifier(v) {
+		// identifiers in the literal are bound relative to g, the element
+		// type is named relative to eg: no single scope can resolve both
+		return nil, nil, fmt.Errorf("a literal of the typedef'd container %q defined in another file must not contain identifiers: %v", t.Name, v)
+	}
+	return eg, et, nil
+}
+
+func constHasIdentifier(v *parser.ConstValue) bool {
+	switch v.Type {
+	case parser.ConstType_ConstIdentifier:
+		id := v.TypedValue.GetIdentifier()
+		return id != "true" && id != "false"
+	case parser.ConstType_ConstList:
+		for _, e := range v.TypedValue.List {
+			if constHasIdentifier(e) {
+				return true
+			}
+		}
+	case parser.ConstType_ConstMap:
+		for _, m := range v.TypedValue.Map {
+			if constHasIdentifier(m.Key) || constHasIdentifier(m.Value) {
+				return true
+			}
+		}
+	}
+	return false
 }
 
 func (r *Resolver) onStructLike(g *Scope, name string, t *parser.Type, v *parser.ConstValue) (string, error) {
